@@ -109,6 +109,11 @@ fn main() {
                 let ins = args[i + 5].replace("\\n", "\n").into_bytes();
                 let mut p = tree_sitter::Parser::new();
                 p.set_language(&l.language).unwrap();
+                let rng: Vec<(usize, usize)> = std::env::var("VERIF_RANGES").ok().map(|s| s.split(';').map(|r| { let mut it = r.split(','); (it.next().unwrap().parse().unwrap(), it.next().unwrap().parse().unwrap()) }).collect()).unwrap_or_default();
+                let mk = |t: &vengine::model::text::Text| -> Vec<tree_sitter::Range> { rng.iter().map(|&(s, e)| tree_sitter::Range { start_byte: s, end_byte: e, start_point: t.point_of(s), end_point: t.point_of(e) }).collect() };
+                if !rng.is_empty() {
+                    p.set_included_ranges(&mk(&vengine::model::text::Text::new(bytes.clone()))).unwrap();
+                }
                 let mut tree = p.parse(&bytes, None).unwrap();
                 println!("old: {}", vengine::model::xtree::XTree::build(&tree).render(&l.language, 400));
                 if let Ok(f) = std::env::var("VERIF_DOT") {
@@ -125,10 +130,16 @@ fn main() {
                 p.set_logger(Some(Box::new(|ty, msg| {
                     println!("  {} {msg}", if ty == tree_sitter::LogType::Lex { "lex  " } else { "parse" });
                 })));
+                if !rng.is_empty() {
+                    p.set_included_ranges(&mk(&text)).unwrap();
+                }
                 let t2 = p.parse(&text.bytes, Some(&tree)).unwrap();
                 println!("inc: {}", vengine::model::xtree::XTree::build(&t2).render(&l.language, 400));
                 let mut p2 = tree_sitter::Parser::new();
                 p2.set_language(&l.language).unwrap();
+                if !rng.is_empty() {
+                    p2.set_included_ranges(&mk(&text)).unwrap();
+                }
                 let t3 = p2.parse(&text.bytes, None).unwrap();
                 println!("scr: {}", vengine::model::xtree::XTree::build(&t3).render(&l.language, 400));
                 return;
